@@ -38,6 +38,7 @@ fn main() {
             "C02" => vm::run_c02(&nums),
             "C03" => vm::run_c03(&nums),
             "ASM" => asm::run_asm(&nums),
+            "ASMW" => asm::run_asmw(&nums),
             "DBG" => dbg::run_dbg(&nums),
             "DBGT" => dbg::run_dbgt(&nums),
             "DBGS" => dbg::run_dbgs(&nums),
